@@ -31,13 +31,13 @@ CHECKS = {
                 text="Every sanctioned barrier path (Gc::write/unlock, Gc<Lock>/Gc<RefLock>/Gc<OnceLock> setters, mutate_root/map_root/try_map_root, stash, the four raw barrier forms incl. parent-only with two adoptions and child-only with two parents, the three weak forms, barrier-only calls) is a transition from every state; all later interleavings of collector increments follow by exploration under the safety oracle; C02 probe detects barrier side effects that retain garbage. Also: callbacks that adopt and unwind, weak pointers to unreachable targets changing holders under the explicit weak barriers, get_or_init on an empty OnceLock with a fresh value, and the root re-typing grid.",
                 tech="explicit-state BFS over barrier-path alphabet, closed scopes"),
     "C07": dict(engine="explorer", cat="model_checking", ref="5/C07",
-                text="Finalize / resurrect operations (through finish_marking and through zero-debt mark_debt) in every state of the finalization scopes with non-wrapping collector calls: is_dead vs shadow reachability (exact when no mutation since marking began), resurrect result vs drop log, phase after resurrection, and protection of the strong closure of resurrected objects until the cycle ends.",
+                text="Finalize / resurrect operations (through finish_marking and through zero-debt mark_debt) in every state of the finalization scopes with non-wrapping collector calls: is_dead vs shadow reachability (exact when no mutation since marking began), resurrect result vs drop log, phase after resurrection, and protection of the strong closure of resurrected objects until the cycle ends. The MarkedArena linearity programs of C08 run here too; weak pointers never traced this cycle (held by dead objects, made inside finalize) and queries after a barrier in the same callback are part of the monitor.",
                 tech="explicit-state BFS with finalization alphabet, per-cycle shadow bookkeeping"),
     "C08": dict(engine="explorer", cat="model_checking", ref="5/C08",
-                text="Contract table (phase before, call, debt class zero/epsilon/huge) -> allowed (phase after, MarkedArena returned) checked on every transition and by a probe performing each API call with each debt class from every state. Root operations also go through map_root / try_map_root, and the root re-typing grid checks the protocol across a change of the root type.",
+                text="Contract table (phase before, call, debt class zero/epsilon/huge) -> allowed (phase after, MarkedArena returned) checked on every transition and by a probe performing each API call with each debt class from every state. Root operations also go through map_root / try_map_root, and the root re-typing grid checks the protocol across a change of the root type. A compile-time half checks that a MarkedArena is a linear token (consumed by finalize / start_sweeping, borrows the arena mutably, cannot be cloned or outlive it).",
                 tech="explicit-state BFS + per-state probe of every API call x debt class"),
     "C10": dict(engine="explorer", cat="model_checking", ref="5/C10",
-                text="Metrics scope with the integer counters in the canonical state (non-tracing leaf objects, trace faults), barrier scope and a depth-bounded natural-debt scope with adjust_debt operations: count vs allocator, debt sign/finite/zero-when-empty, adjust exactness, debt never decreased by callbacks beyond forward-barrier mark credit, no panic (overflow checks and debug assertions are on).",
+                text="Metrics scope with the integer counters in the canonical state (non-tracing leaf objects, trace faults), barrier scope and a depth-bounded natural-debt scope with adjust_debt operations: count vs allocator, debt sign/finite/zero-when-empty, adjust exactness, debt never decreased by callbacks beyond forward-barrier mark credit, no panic (overflow checks and debug assertions are on). A finalization scope covers write barriers on an object revived in the same callback.",
                 tech="explicit-state BFS with metric counters in the state hash; allocator-based count oracle"),
     "C11": dict(engine="explorer", cat="fault_enumeration", ref="5/C11",
                 text="Fault transitions (panic in the k-th Collect::trace call of each collector call, panicking mutate / mutate_root callbacks after they mutated) from every state, unlimited repeats; the caught state continues to be explored under the C01/C05 oracles and C02/C04 probes.",
@@ -46,16 +46,16 @@ CHECKS = {
                 text="Stash / stash-after-upgrade / clone / drop / fetch over 1-2 sets and up to 3 handles interleaved with collector increments, slot table in the state hash; handles are roots of the shadow (safety oracle + C02 probe = alive exactly while a handle exists); probes present every handle to the sibling set, to another arena's set and, after dropping the arena, to a live set.",
                 tech="explicit-state BFS with dynamic-root alphabet + per-state foreign-presentation probe"),
     "C09": dict(engine="grid", cat="exploration", ref="5/C09", note="Trusted base: the harness workloads and the bound derivation in DESIGN.md 5/C09; configurations outside the enumerated factor values, bursts and workloads are not covered. One known finding (stop-the-world return on an empty heap) is listed in known_findings.json.",
-                text="Every configuration of the stated grid (pacing factors satisfying the documented inequalities incl. stop-the-world, sleep parameters, six workload shapes, bursts, three drivers) is run on the real arena for 120 (thorough 400) rounds chained from the previous state; after every collector call: debt zero or stop phase, cycle bound A < rho*H/(1-rho) for cycles woken by a debt-driven call, stop-the-world rule, and the exact sleep threshold after every debt-free cycle.",
+                text="Every configuration of the stated grid (pacing factors satisfying the documented inequalities incl. stop-the-world, sleep parameters, six workload shapes, bursts, three drivers) is run on the real arena for 120 (thorough 400) rounds chained from the previous state; after every collector call: debt zero or stop phase, cycle bound A < rho*H/(1-rho) for cycles woken by a debt-driven call, stop-the-world rule, and the exact sleep threshold after every debt-free cycle. Scale cases (2 x 100 000 allocations, traceable, held by the root / in a chain / under one table) and pacing-switch cases extend the grid; a per-case watchdog turns a collector call that never returns into a verdict.",
                 tech="exhaustive enumeration of a finite configuration grid on the real code against a reference computation"),
     "C17": dict(engine="grid", cat="exploration", ref="5/C17", note="Trusted base: tracking allocator (layout pairing, quarantine), x86-64 / glibc; sizes and alignments outside the table are not covered.",
-                text="Every (size, alignment) of the table for sized values, slices, str, header+slice (incl. zero-sized and over-aligned headers/elements/lengths), six per-value metadata types and per-type metadata: alignment and extent checked against the allocator block before writing, position-dependent pattern intact across collections and mid-cycle stops, released with the identical layout (collected / arena dropped asleep / arena dropped mid-sweep), fat/thin and raw-pointer round trips preserve address and length.",
+                text="Every (size, alignment) of the table for sized values, slices, str, header+slice (incl. zero-sized and over-aligned headers/elements/lengths), six per-value metadata types and per-type metadata: alignment and extent checked against the allocator block before writing, position-dependent pattern intact across collections and mid-cycle stops, released with the identical layout (collected / arena dropped asleep / arena dropped mid-sweep), fat/thin and raw-pointer round trips preserve address and length. A user-defined pointer metadata for an unsized value (u32 rows whose width is per-type metadata) is allocated, completed / abandoned and released under the same layout pairing.",
                 tech="exhaustive enumeration of a layout grid on the real allocator path with a tracking allocator oracle"),
     "C18": dict(engine="grid", cat="exploration", ref="5/C18", note="Trusted base: tracking allocator, destructor log; element constructors panic via resume_unwind.",
                 text="Every builder kind x abandonment point (fresh, after header, constructor panic at every index k <= n, completed) x element kind (token, no drop glue, zero-sized, over-aligned) x arena phase (Sleeping, Marking, Marked, Sweeping) x copy source length n-1/n/n+1: destructor log equals the initialised parts exactly once, block released, Gc count / debt bits / phase unchanged by abandonment, constructor called exactly once per index in order, later collections and arena drop stay clean.",
                 tech="exhaustive enumeration of builder abandonment points on the real code"),
     "C12": dict(engine="probes", cat="exploration", ref="5/C12", note=PROBE_NOTE + " Five root-type shapes of the implied-'static family are listed as known findings (rustc #25860 family).",
-                text="Exhaustive enumeration of the brand-escape grammar (13 branded things x 17 escape routes x 8 API entry points, cross-arena uses under nested mutate / finalize, re-entrant collection calls, shrink/grow variance by value and behind references for 18 types, Send/Sync for 18 types incl. arenas with plain-data roots, root-type shapes implying 'gc: 'static): every negative program must be rejected by rustc, every positive twin accepted; accepted negatives are run to show the consequence.",
+                text="Exhaustive enumeration of the brand-escape grammar (13 branded things x 17 escape routes x 8 API entry points, cross-arena uses under nested mutate / finalize, re-entrant collection calls, shrink/grow variance by value and behind references for 18 types, Send/Sync for 18 types incl. arenas with plain-data roots, root-type shapes implying 'gc: 'static): every negative program must be rejected by rustc, every positive twin accepted; accepted negatives are run to show the consequence. The payload lifetime of every written-to type (builders, Gc<Lock>, Gc<RefLock>) must neither shrink nor grow (D7), collection methods must demand a root that is Collect for every brand, and pointers that come out of conversions are escaping things too.",
                 tech="exhaustive enumeration of a bounded program grammar, compiler verdict per program, execution of accepted programs"),
     "C13": dict(engine="probes", cat="exploration", ref="5/C13", note=PROBE_NOTE + " Two barrier bypasses under an implied 'gc: 'static root shape are listed as known findings (same root cause as C12's).",
                 text="Typed term grammar (Write sources x 28 holder fields x projection chains up to depth 4/5 x sinks), typed under an over-approximate model so that impls that do not exist today are probed too; every program rustc accepts is run with the holder black in a fully marked arena and a fresh white child, violation = child reachable through the holder but destructed; fixed probes for forged Write, unsafe accessors, Cell/RefCell under derive with every mode/bound/require_static combination, user Unlock/DerefWrite/IndexWrite impls and user index types; the sanctioned setters are run as controls.",
